@@ -152,9 +152,8 @@ def fresh_of_sort(sort, base: str, facts: list) -> V:
         return V("str", z3.String(fresh_name(base)))
     if k == "bytes":
         s = z3.Const(fresh_name(base), IntSeq)
-        i = z3.Int(fresh_name("bi"))
-        facts.append(z3.ForAll([i], z3.Implies(z3.And(0 <= i, i < z3.Length(s)),
-                                               z3.And(0 <= s[i], s[i] <= 255)), patterns=[s[i]]))
+        # element range 0..255 is instantiated at every access (loop element, subscript): a quantified fact over
+        # seq.nth is rewritten by z3 into seq.nth_u patterns that neither solver instantiates reliably
         return V("bytes", s)
     if k in ("ilist", "ideque"):
         a = z3.Array(fresh_name(base + "_a"), z3.IntSort(), z3.IntSort())
